@@ -25,5 +25,6 @@ def check(run):
     run.gen("Gen_C15")
     common.gen_structs(run, fams1=(), fams2=("lease", "offsig", "ls2", "meta", "els"))
     run.gen("Gen_Build", consts={"Fam": "lease"}, tag="Gen_Build_lease")
+    run.gen("Gen_C06")      # signing constructors: decoded content (C02), published date (C15)
     run.replay_and_judge()
     return vlib.finish(run, "model_checking", RULE, ASSUME)
